@@ -169,3 +169,45 @@ def ref_prefix_beam(P, k, thr, blank, lm=None, h0=0, bonus=F(1), num=0, den=1):
             margin = mg if margin is None else min(margin, mg)
         beam = dict(items[:kk])
     return beam, margin
+
+
+def ref_prefix_beam_all(P, k, thr, blank, limit=300, eps=F(1, 10 ** 6)):
+    """All outcomes of textbook prefix beam search under every way of breaking (near-)ties at the cut:
+    candidates within `eps` relative of the k-th best value are interchangeable.  Returns a list of beams
+    (dict prefix -> (pb, pnb)) or None when more than `limit` beams are reachable."""
+    import itertools
+    states = {frozenset({((), (F(1), F(0)))})}
+    for row in P:
+        S = [c for c in range(len(row) - 1) if row[c] > thr]
+        nxt = set()
+        for st in states:
+            beam = dict(st)
+            if not S:
+                nxt.add(frozenset((p, ((pb + pnb) * row[blank], F(0))) for p, (pb, pnb) in beam.items()))
+                continue
+            new = {}
+            for p, (pb, pnb) in beam.items():
+                last = p[-1] if p else None
+                a, b = new.get(p, (F(0), F(0)))
+                new[p] = (a + (pb + pnb) * row[blank], b + pnb * (row[last] if (last is not None and last in S) else 0))
+                for c in S:
+                    v = (pb + (0 if c == last else pnb)) * row[c]
+                    a, b = new.get(p + (c,), (F(0), F(0)))
+                    new[p + (c,)] = (a, b + v)
+            items = [(p, v) for p, v in new.items() if v[0] + v[1] > 0]
+            items.sort(key=lambda it: -(it[1][0] + it[1][1]))
+            if len(items) <= k:
+                nxt.add(frozenset(items))
+                continue
+            kth = items[k - 1][1][0] + items[k - 1][1][1]
+            forced = [it for it in items if sum(it[1]) > kth * (1 + eps)]
+            free = [it for it in items if kth * (1 - eps) <= sum(it[1]) <= kth * (1 + eps)]
+            need = k - len(forced)
+            if math.comb(len(free), need) > limit:
+                return None
+            for ch in itertools.combinations(free, need):
+                nxt.add(frozenset(forced + list(ch)))
+            if len(nxt) > limit:
+                return None
+        states = nxt
+    return [dict(st) for st in states]
